@@ -10,7 +10,7 @@ package endorse
 //@   ensures err != nil ==> result == nil
 
 //@ func tryChange
-//@   modifies copsCalls, lastRead, marshalOf, parsedWasLastRead, pbsrc, pbok, vcGetOps, vcOpened, vcResults, copsDestroyed, copsCommitTries, copsCommitsOK, lastRetriable
+//@   modifies copsCalls, lastRead, lastReadErr, copsWrites, checkedMissing, marshalOf, parsedWasLastRead, pbsrc, pbok, vcGetOps, vcOpened, vcResults, copsDestroyed, copsCommitTries, copsCommitsOK, lastRetriable
 //@   requires change != nil
 //@   requires ecOf(ctx).VCS != nil
 //@   sweep[C15] nilinvoke nilcall
@@ -23,7 +23,7 @@ package endorse
 //@   ensures[C15] ecOf(ctx) != nil && ecOf(ctx).DryRun ==> vcGetOps == old(vcGetOps) && copsCalls == old(copsCalls)
 
 //@ func RetrySubmit
-//@   modifies copsCalls, lastRead, marshalOf, parsedWasLastRead, pbsrc, pbok, vcGetOps, vcOpened, vcResults, copsDestroyed, copsCommitTries, copsCommitsOK, lastRetriable
+//@   modifies copsCalls, lastRead, lastReadErr, copsWrites, checkedMissing, marshalOf, parsedWasLastRead, pbsrc, pbok, vcGetOps, vcOpened, vcResults, copsDestroyed, copsCommitTries, copsCommitsOK, lastRetriable
 //@   requires f != nil
 //@   requires ecOf(ctx) == nil || (ecOf(ctx).VCS != nil && ecOf(ctx).CommitRetries < 9223372036854775807)
 //@   sweep[C15] nilinvoke nilcall
@@ -43,24 +43,32 @@ package endorse
 //@   assigns nothing
 
 //@ func fileExists
-//@   modifies copsCalls, lastRead
+//@   modifies copsCalls, lastRead, lastReadErr
+//@   ghostset checkedMissing = store(checkedMissing, fullpath, err == nil && !result)
+//@   ensures[C13] cops != nil && err == nil && !result ==> notFound(lastReadErr)
 //@   sweep[C15] nilinvoke nilcall
 //@   ensures[C15] cops == nil ==> copsCalls == old(copsCalls) && err == nil && !result
 
 //@ func writeEndorsement
-//@   modifies copsCalls, marshalOf
+//@   requires[C13] cops == nil || allowOverwrite(ctx) || forall(i, 0 <= i && i < len(paths) ==> checkedMissing[paths[i]])
+//@   modifies copsCalls, marshalOf, copsWrites
+//@   ensures[C13] err == nil && cops != nil ==> copsWrites > old(copsWrites)
 //@   sweep[C15] nilinvoke nilcall
 //@   ensures[C15] cops == nil ==> copsCalls == old(copsCalls) && vcGetOps == old(vcGetOps)
 
 //@ func defaultGenerateBasename
-//@   modifies copsCalls, lastRead
+//@   modifies copsCalls, lastRead, lastReadErr, checkedMissing
+//@   ensures[C13] err == nil && !allowOverwrite(ctx) ==> checkedMissing[releasePath(ctx, result0)]
+//@   ensures[C13] err == nil && cops != nil && !allowOverwrite(ctx) ==> notFound(lastReadErr)
 //@   requires ecOf(ctx) != nil
 //@   requires ecOf(ctx).VCS != nil
 //@   sweep[C15] nilinvoke nilcall
 //@   ensures[C15] cops == nil ==> copsCalls == old(copsCalls) && vcGetOps == old(vcGetOps)
 
 //@ func addEndorsement
-//@   modifies copsCalls, lastRead, marshalOf
+//@   ensures[C13] true
+//@   requires[C13] forall(i, 0 <= i && i < len(endorsementMap.Entries) ==> endorsementMap.Entries[i] != nil)
+//@   modifies copsCalls, lastRead, lastReadErr, marshalOf, copsWrites, checkedMissing
 //@   requires ecOf(ctx) != nil
 //@   requires endorsementMap != nil
 //@   requires ecOf(ctx).VCS != nil
@@ -68,27 +76,28 @@ package endorse
 //@   ensures[C15] cops == nil ==> copsCalls == old(copsCalls) && vcGetOps == old(vcGetOps)
 
 //@ func snapshotEndorsement
-//@   modifies copsCalls, lastRead, marshalOf, pbsrc, pbok
+//@   ensures[C13] true
+//@   modifies copsCalls, lastRead, lastReadErr, marshalOf, pbsrc, pbok, copsWrites, checkedMissing
 //@   requires ecOf(ctx) != nil
 //@   requires ecOf(ctx).VCS != nil
 //@   sweep[C15] nilinvoke nilcall
 //@   ensures[C15] cops == nil ==> copsCalls == old(copsCalls) && vcGetOps == old(vcGetOps)
 
 //@ func changeEndorsements
-//@   modifies copsCalls, lastRead, marshalOf, parsedWasLastRead, pbsrc, pbok
+//@   modifies copsCalls, lastRead, lastReadErr, copsWrites, checkedMissing, marshalOf, parsedWasLastRead, pbsrc, pbok
 //@   requires ecOf(ctx) != nil && ecOf(ctx).VCS != nil && (cops == nil) == ecOf(ctx).DryRun
 //@   sweep[C15] nilinvoke nilcall
 //@   ensures[C15] ecOf(ctx).DryRun ==> copsCalls == old(copsCalls) && vcGetOps == old(vcGetOps)
 //@   ensures[C14] err == nil && !ecOf(ctx).DryRun && ecOf(ctx).SnapshotDir == "" ==> parsedWasLastRead
 
 //@ func commitEndorsement$1
-//@   modifies copsCalls, lastRead, marshalOf, parsedWasLastRead, pbsrc, pbok
+//@   modifies copsCalls, lastRead, lastReadErr, copsWrites, checkedMissing, marshalOf, parsedWasLastRead, pbsrc, pbok
 //@   requires ecOf(ctx) != nil && ecOf(ctx).VCS != nil && (cops == nil) == ecOf(ctx).DryRun
 //@   sweep[C15] nilinvoke nilcall
 //@   ensures[C15] ecOf(ctx).DryRun ==> copsCalls == old(copsCalls) && vcGetOps == old(vcGetOps)
 
 //@ func commitEndorsement
-//@   modifies copsCalls, lastRead, marshalOf, parsedWasLastRead, pbsrc, pbok, vcGetOps, vcOpened, vcResults, copsDestroyed, copsCommitTries, copsCommitsOK, lastRetriable
+//@   modifies copsCalls, lastRead, lastReadErr, copsWrites, checkedMissing, marshalOf, parsedWasLastRead, pbsrc, pbok, vcGetOps, vcOpened, vcResults, copsDestroyed, copsCommitTries, copsCommitsOK, lastRetriable
 //@   requires ecOf(ctx) == nil || (ecOf(ctx).VCS != nil && ecOf(ctx).CommitRetries < 9223372036854775807)
 //@   sweep[C15] nilinvoke nilcall
 //@   ensures[C15] ecOf(ctx) != nil && ecOf(ctx).DryRun ==> copsCalls == old(copsCalls) && vcGetOps == old(vcGetOps)
@@ -115,7 +124,7 @@ package endorse
 //@   ensures[C15] vcGetOps == old(vcGetOps) && copsCalls == old(copsCalls)
 
 //@ func VirtualFirmware
-//@   modifies copsCalls, lastRead, marshalOf, parsedWasLastRead, pbsrc, pbok, vcGetOps, vcOpened, vcResults, copsDestroyed, copsCommitTries, copsCommitsOK, lastRetriable, signerCalls, caCalls, sigKey, sigDigest, lastSig, caPrimary, certKeyArg, lastCert, bundleKeyArg, lastBundle, snpImage, tdxImage
+//@   modifies copsCalls, lastRead, lastReadErr, copsWrites, checkedMissing, marshalOf, parsedWasLastRead, pbsrc, pbok, vcGetOps, vcOpened, vcResults, copsDestroyed, copsCommitTries, copsCommitsOK, lastRetriable, signerCalls, caCalls, sigKey, sigDigest, lastSig, caPrimary, certKeyArg, lastCert, bundleKeyArg, lastBundle, snpImage, tdxImage
 //@   requires ecOf(ctx) == nil || (ecOf(ctx).CommitRetries < 9223372036854775807 && forall(i, 0 <= i && i < len(ecOf(ctx).VCSs) ==> ecOf(ctx).VCSs[i] != nil))
 //@   sweep[C15] nilinvoke nilcall
 //@   ensures[C15] ecOf(ctx) != nil && old(ecOf(ctx).MeasurementOnly) ==> signerCalls == old(signerCalls) && caCalls == old(caCalls) && vcGetOps == old(vcGetOps) && copsCalls == old(copsCalls)
@@ -123,3 +132,30 @@ package endorse
 //@   loop 1 invariant ec == ecOf(ctx) && ec != nil && ec.DryRun == old(ecOf(ctx).DryRun) && ec.CommitRetries < 9223372036854775807
 //@   loop 1 invariant ec.DryRun ==> vcGetOps == old(vcGetOps) && copsCalls == old(copsCalls)
 //@   loop 1 invariant forall(i, 0 <= i && i < len(ec.VCSs) ==> ec.VCSs[i] != nil)
+
+// ---- C13: manifest index ----
+//@ func entryMaps
+//@   requires[C13] forall(i, 0 <= i && i < len(entries) ==> entries[i] != nil)
+//@   assigns nothing
+//@   ghostparam a Int
+//@   ghostparam b Int
+//@   ensures[C13] err == nil ==> files != nil && digests != nil
+//@   ensures[C13] err == nil && 0 <= a && a < len(entries) ==> has(files, entries[a].Path) && files[entries[a].Path] == entries[a] && has(digests, hexOf(val(entries[a].Digest))) && digests[hexOf(val(entries[a].Digest))] == entries[a]
+//@   ensures[C13] err == nil && 0 <= a && a < b && b < len(entries) ==> entries[a].Path != entries[b].Path && hexOf(val(entries[a].Digest)) != hexOf(val(entries[b].Digest))
+//@   loop 1 invariant files != nil && digests != nil && fresh(files) && fresh(digests)
+//@   loop 1 invariant 0 <= a && a <= rangeindex ==> has(files, entries[a].Path) && files[entries[a].Path] == entries[a] && has(digests, hexOf(val(entries[a].Digest))) && digests[hexOf(val(entries[a].Digest))] == entries[a]
+//@   loop 1 invariant 0 <= a && a < b && b <= rangeindex ==> entries[a].Path != entries[b].Path && hexOf(val(entries[a].Digest)) != hexOf(val(entries[b].Digest))
+
+//@ func removeDigest
+//@   requires[C13] forall(i, 0 <= i && i < len(entries) ==> entries[i] != nil)
+//@   assigns nothing
+//@   ghostparam a Int
+//@   ensures[C13] 0 <= a && a < len(result) ==> result[a] != nil && hexOf(val(result[a].Digest)) != digest
+//@   ensures[C13] len(result) <= len(entries)
+//@   loop 1 invariant len(result) <= rangeindex + 1 && (ref(result) == 0 || fresh(result)) && result != nil
+//@   loop 1 invariant 0 <= a && a < len(result) ==> result[a] != nil && hexOf(val(result[a].Digest)) != digest
+
+
+// releasePath is a deterministic function of the context (the VersionControl implementation's path mapping).
+//@ func releasePath trusted pure
+//@   assigns nothing
